@@ -175,6 +175,8 @@ type modData struct {
 	r     *scRender
 	steps [][5]int // per occurrence: definition, references, highlight, hover, rename
 	toks  map[string]string
+	syms  []int    // documentSymbol step per file
+	late  [][3]int // after another file was edited and closed without saving: (occurrence, references step, rename step)
 }
 
 func modOneLine(raw []byte, seed int64) bool { return scModeOf(raw, seed) == 1 }
@@ -208,6 +210,33 @@ func modBuild(seed int64) func(id int, raw json.RawMessage) *Job {
 				st[k] = len(pc.Steps) - 1
 			}
 			d.steps = append(d.steps, st)
+		}
+		for _, f := range r.Files {
+			pc.Steps = append(pc.Steps, proto.Step{M: "textDocument/documentSymbol", P: json.RawMessage(fmt.Sprintf(`{"textDocument":{"uri":"file://$ROOT/%s"}}`, f))})
+			d.syms = append(d.syms, len(pc.Steps)-1)
+		}
+		// an edit that is thrown away: the last file with text gets a line typed at its top and is closed without saving;
+		// answers asked afterwards from the first file must again refer to the text on disk
+		last := -1
+		for fi := len(r.Files) - 1; fi >= 1; fi-- {
+			if strings.TrimSpace(r.Text[fi]) != "" {
+				last = fi
+				break
+			}
+		}
+		if last >= 1 {
+			lf := r.Files[last]
+			pc.Steps = append(pc.Steps, changeStep(lf, 2, 0, 0, 0, 0, "local pad = 0\n"))
+			pc.Steps = append(pc.Steps, proto.Step{M: "textDocument/didClose", N: true, P: json.RawMessage(fmt.Sprintf(`{"textDocument":{"uri":"file://$ROOT/%s"}}`, lf))})
+			for k, o := range r.Occ {
+				if o.File != 0 {
+					continue
+				}
+				f := r.Files[0]
+				pc.Steps = append(pc.Steps, proto.Step{M: "textDocument/references", P: refParams(f, o.Line, o.Col)})
+				pc.Steps = append(pc.Steps, proto.Step{M: "textDocument/rename", P: renameParams(f, o.Line, o.Col, "zq9")})
+				d.late = append(d.late, [3]int{k, len(pc.Steps) - 2, len(pc.Steps) - 1})
+			}
 		}
 		return &Job{PC: pc, Data: d}
 	}
@@ -292,6 +321,50 @@ func modJudgeRanges(c *Ctx, j *Job, res *proto.Result) {
 		}
 		if n > 0 && !self {
 			prob = append(prob, fmt.Sprintf("rename at %s: the edit does not rewrite the occurrence it was asked at", at))
+		}
+	}
+	// outlines: every entry's range lies in its document (line and column) with start <= end
+	for fi, st := range d.syms {
+		var top []docSym
+		if rp := res.Steps[st].Reply; len(rp) > 0 && string(rp) != "null" {
+			json.Unmarshal(rp, &top)
+		}
+		var all []docSym
+		flatten(top, &all)
+		lines := lspLines(d.r.Text[fi])
+		for _, e := range all {
+			if _, ok := rangeText(lines, e.Range.Start.Line, e.Range.Start.Character, e.Range.End.Line, e.Range.End.Character); !ok {
+				prob = append(prob, fmt.Sprintf("outline of %s: entry %q has range %d:%d-%d:%d outside the document or with start after end", d.r.Files[fi], e.Name,
+					e.Range.Start.Line, e.Range.Start.Character, e.Range.End.Line, e.Range.End.Character))
+			}
+		}
+	}
+	// after the discarded edit of another file
+	for _, lt := range d.late {
+		o := &d.r.Occ[lt[0]]
+		at := fmt.Sprintf("%s %d:%d (%s), after another file was edited and closed without saving", d.r.Files[o.File], o.Line, o.Col, o.Name)
+		rl, _ := projLocs(res.Root, res.Steps[lt[1]].Reply)
+		for _, l := range rl {
+			if _, e := tokAt(l.File, l.SL, l.SC, l.EL, l.EC); e != "" {
+				prob = append(prob, "references at "+at+": range "+e)
+			}
+		}
+		var we struct {
+			Changes map[string][]rawEdit `json:"changes"`
+		}
+		if rp := res.Steps[lt[2]].Reply; len(rp) > 0 && string(rp) != "null" {
+			json.Unmarshal(rp, &we)
+		}
+		for uri, eds := range we.Changes {
+			f := strings.TrimPrefix(strings.TrimPrefix(uri, "file://"), res.Root+"/")
+			for _, e := range eds {
+				t, er := tokAt(f, e.Range.Start.Line, e.Range.Start.Character, e.Range.End.Line, e.Range.End.Character)
+				if er != "" {
+					prob = append(prob, "rename at "+at+": edit "+er)
+				} else if t != o.Name {
+					prob = append(prob, fmt.Sprintf("rename at %s: edit %s %d:%d rewrites the identifier %q", at, f, e.Range.Start.Line, e.Range.Start.Character, t))
+				}
+			}
 		}
 	}
 	if len(prob) == 0 {
